@@ -35,6 +35,9 @@ pub enum UdpOp {
     ServerSendFault { t: usize },
     /// a datagram that is *not* sent (its sequence number is used up): what is left of a script when one session is run alone
     Skip,
+    /// a SOCKS5-UDP datagram with FRAG != 0 (a fragment; fragmentation is not supported, the relay drops it): it reaches no
+    /// target, and the datagrams right behind it are served as usual
+    Fragment { t: usize },
 }
 
 #[derive(Clone, Debug, Serialize, Deserialize, PartialEq)]
@@ -175,6 +178,12 @@ async fn udp_app(ix: usize, ops: Vec<UdpOp>, targets: Vec<UdpTarget>, via_port: 
                 world::with(|w| w.add_fault(world::FaultKind::UdpSendErr, port, rt::NODE_SERVER, 1));
             }
             UdpOp::Skip => seq += 1,
+            UdpOp::Fragment { t } => {
+                let p = dgram_payload(ix, t, 0xfff0_0000 + seq, 0, 40);
+                let mut d = socks5_udp_wrap(&targets[t], &p);
+                d[2] = 1 + (seq % 3) as u8;
+                let _ = sock.send_to(&d, client).await;
+            }
             UdpOp::Send { t, size } => {
                 seq += 1;
                 let p = dgram_payload(ix, t, seq, 0, size);
@@ -505,6 +514,11 @@ pub fn gen_udp_plan_for(g: &mut Gen, thorough: bool, max_payload: usize, edge: O
                 // now and then a datagram that cannot be forwarded at all (too large once the protocol's header is added): it may be
                 // dropped whole, and the datagrams that follow it must be served as usual
                 let size = if max_payload > 60_000 && g.chance(4) { 65507 - g.range(0, 40) as usize } else { size.min(max_payload) };
+                if g.chance(6) {
+                    // a fragment, and a datagram of some size right behind it (no pause in between)
+                    ops.push(UdpOp::Fragment { t: g.below(targets.len() as u64) as usize });
+                    ops.push(UdpOp::Send { t: g.below(targets.len() as u64) as usize, size: g.range(60, 1400) as usize });
+                }
                 ops.push(UdpOp::Send { t: g.below(targets.len() as u64) as usize, size });
             }
         }
